@@ -46,7 +46,15 @@ func (g *Gen) queryFor(o *Obligation) *Query {
 	// axioms over spec functions: only those whose symbols occur in this obligation's context
 	ctx := strings.Join(q.Assumes, " ") + " " + o.Goal + " " + o.Guard + " " + strings.Join(g.decls, " ")
 	for _, ax := range g.axioms {
-		for _, sym := range sfSymbols(ax) {
+		syms := sfSymbols(ax)
+		if len(syms) == 0 {
+			// axiom over built-in symbols only (string order, slicing): relevant if the context slices strings
+			if strings.Contains(ax, "gstr.sub") && strings.Contains(ctx, "(gstr.sub ") || !strings.Contains(ax, "gstr.sub") {
+				q.Assumes = append(q.Assumes, ax)
+			}
+			continue
+		}
+		for _, sym := range syms {
 			if strings.Contains(ctx, "("+sym+" ") {
 				q.Assumes = append(q.Assumes, ax)
 				break
